@@ -609,17 +609,24 @@ def apply_blocks(sig, body, fname, blocks, rw, what, probe):
                 raise Undecided("lost anchor: loop %d of fn %s (%s has %d loops)" % (k, fname, what, len(lp)))
             inserts.append((lp[k], "\n" + txt))
         elif b["kind"] in ("after", "before"):
-            needle = re.match(r'\s*"(.*)"\s*$', parts[1]).group(1)
+            mm = re.match(r'\s*"(.*)"\s*(all)?\s*$', parts[1])
+            needle, every = mm.group(1), bool(mm.group(2))
             hits = [m.start() for m in re.finditer(re.escape(needle), body)]
-            if len(hits) != 1:
+            # `all`: proof-only text (ghost snapshots, asserts) is placed at EVERY occurrence of the statement, so a change
+            # that duplicates or moves the statement keeps the unit decidable (a hint that does not hold at a new site is a
+            # failed proof step of that site)
+            if len(hits) != 1 and not (every and len(hits) >= 1):
                 raise Undecided("lost anchor: needle %r matched %d times in fn %s (%s)" % (needle, len(hits), fname, what))
-            if b["kind"] == "before":
-                inserts.append((_line_start(body, hits[0]), txt))
-            else:
-                # end of the statement containing the needle
-                e = _element_end(body, hits[0])
-                nl = body.find("\n", e - 1)
-                inserts.append((nl + 1 if nl >= 0 else e, txt))
+            for h0 in hits:
+                if b["kind"] == "before":
+                    inserts.append((_line_start(body, h0), txt))
+                else:
+                    # end of the statement containing the needle
+                    e = _element_end(body, h0)
+                    nl = body.find("\n", e - 1)
+                    inserts.append((nl + 1 if nl >= 0 else e, txt))
+            if len(hits) > 1:
+                rw.hit("H hint for %r placed at %d sites" % (needle, len(hits)))
         elif b["kind"] == "prefix":
             inserts.append((1, "\n" + txt))
     if probe and has_spec:
